@@ -65,6 +65,16 @@ def seeds():
     return head + "\n".join(rows) + "\n"
 
 
+def measured():
+    rows = []
+    for f in sorted(glob.glob(os.path.join(ROOT, "evidence", "C*.json"))):
+        e = json.load(open(f))
+        cov = e.get("coverage", {})
+        rows.append(f"| {e.get('property_id')} | {e.get('tier')} | {cov.get('evaluations', e.get('evaluations'))} | {cov.get('distinct_nontrivial', e.get('distinct_nontrivial'))} | {len(cov.get('sub_checks', []))} | {e.get('wall_s', 0):.0f} s | {len(cov.get('known_findings_hit', []))} |")
+    head = "| id | tier of the last run | evaluations | distinct non-trivial | sub-checks | wall (16 cores) | known findings hit |\n|---|---|---|---|---|---|---|\n"
+    return head + "\n".join(rows) + "\n"
+
+
 def splice(text, tag, body):
     begin, end = f"<!-- BEGIN:{tag} -->", f"<!-- END:{tag} -->"
     if begin not in text:
@@ -78,5 +88,6 @@ if __name__ == "__main__":
     s = open(p).read()
     s = splice(s, "findings", findings())
     s = splice(s, "seeds", seeds())
+    s = splice(s, "measured", measured())
     open(p, "w").write(s)
     print("DESIGN.md tables regenerated")
